@@ -95,7 +95,6 @@ def run(ctx):
             total = None
             block = fi.body
         blocks.append((fi, block, total))
-        check_features(ctx, fi, block, total)
     for rel, q in CALLERS:
         fi = repo.func(rel, q)
         ctx.analysed(fi)
@@ -109,7 +108,16 @@ def run(ctx):
             U(body[0].value.args[0]) == fi.params[1] and not ifs[0].orelse
         ctx.ob('pass-through', fi, ifs[0], ok, 'an omitted total must become estimate_total(%s), nothing else' % fi.params[1])
         check_pass_through(ctx, fi, total, ifs[0])
-    check_siblings(ctx, blocks)
+    deviants = check_siblings(ctx, blocks)
+    for fi, block, total in blocks:
+        try:
+            check_features(ctx, fi, block, total)
+        except AnalysisError as e:
+            if fi.qualname + '@' + fi.rel in deviants:
+                # the copy already stands reported as diverging from its siblings; its own shape is unrecognised
+                ctx.note('feature rules not applicable to the diverging copy %s (%s)' % (fi.qualname, e))
+                continue
+            raise
     ctx.floor('feature obligations', sum(1 for o in ctx.obligations if o.rule.endswith('-form') or o.rule in
                                          ('ones-target', 'same-system', 'guarded-append', 'floor-and-default')), 24)
 
@@ -142,6 +150,25 @@ def check_model_total(ctx, fi, total):
                    % (total, U(arg) if arg is not None else 'the default 1.0'))
     if n == 0:
         raise AnalysisError('%s: no model construction found' % fi.qualname)
+    # the object published as self.model must be one of those constructions (or get `.total = total` right away)
+    pub = [s_ for s_ in walk_shallow(fi.node) if isinstance(s_, ast.Assign) and any(U(t) == 'self.model' for t in s_.targets)]
+    for p_ in pub:
+        name = U(p_.value)
+        for s_ in walk_shallow(fi.node):
+            if isinstance(s_, ast.Assign) and len(s_.targets) == 1 and U(s_.targets[0]) == name:
+                v = s_.value
+                ctor = isinstance(v, ast.Call) and isinstance(v.func, ast.Name) and v.func.id in ('GraphicalModel', 'RegionGraph', 'FactorGraph')
+                sets_total = False
+                par = getattr(s_, '_parent', None)
+                body = getattr(par, 'body', []) if par is not None else []
+                for blk in (getattr(par, 'body', []), getattr(par, 'orelse', [])):
+                    if s_ in blk:
+                        for nxt in blk[blk.index(s_) + 1:]:
+                            if isinstance(nxt, ast.Assign) and U(nxt.targets[0]) == name + '.total' and U(nxt.value) == total:
+                                sets_total = True
+                ctx.ob('pass-through', fi, s_, ctor or sets_total,
+                       'the model published as self.model must be built with `%s` (or be given `.total = %s`); `%s` is neither: a reused '
+                       'object keeps the total of an earlier call' % (total, total, U(s_)[:70]))
 
 
 def check_features(ctx, fi, block, total):
@@ -296,6 +323,7 @@ def check_siblings(ctx, blocks):
     for d in dumps:
         counts[d] = counts.get(d, 0) + 1
     majority = max(counts, key=lambda d: counts[d])
+    deviants = set()
     for (fi, b, t), d in zip(blocks, dumps):
         ok = d == majority and counts[majority] >= 2
         where = b[0]
@@ -310,7 +338,10 @@ def check_siblings(ctx, blocks):
                     detail = 'diverges from the majority of the four copies at `%s` (majority: `%s`)' % (U(s1), U(s2))
                     break
         ctx.ob('sibling-agreement', fi, where, ok, 'the four copies of the total estimator must be one program: ' + detail,
-               construct=('estimator copy in ' + fi.qualname) if ok else U(where))
+               construct=('estimator copy in ' + fi.qualname) if ok else U(where)[:120])
+        if not ok:
+            deviants.add(fi.qualname + '@' + fi.rel)
+    return deviants
 
 
 def all_stmts(block):
